@@ -575,7 +575,7 @@ func (w *bWorld) genPatches(create bool) []workload.PatchDesc {
 	var out []workload.PatchDesc
 
 	for i := 0; i < n; i++ {
-		kinds := []workload.PatchKind{workload.AddKey, workload.AddSvc, workload.RemoveKey, workload.RemoveSvc, workload.AddKey, workload.AddAKA, workload.ReplaceAll}
+		kinds := []workload.PatchKind{workload.AddKey, workload.AddSvc, workload.RemoveKey, workload.RemoveSvc, workload.AddKey, workload.AddAKA, workload.ReplaceAll, workload.AddNote}
 		kind := kinds[w.k.Draw(len(kinds), "patch.kind")]
 
 		if create && i == 0 {
@@ -632,7 +632,7 @@ func usesAKA(op *bOp) bool {
 // genOpaque draws an opaque document (the client library turns it into patches itself).
 func (w *bWorld) genOpaque() (string, []workload.PatchDesc) {
 	k := w.k
-	keys := workload.KeyIDs()[:1+k.Draw(3, "opaque.keys")]
+	keys := workload.KeyIDs()[:k.Draw(4, "opaque.keys")] // possibly none: a document of services / also-known-as only
 
 	var svcs, uris []string
 
@@ -647,6 +647,10 @@ func (w *bWorld) genOpaque() (string, []workload.PatchDesc) {
 	note := ""
 	if k.Draw(3, "opaque.note") == 0 {
 		note = "note-" + w.nextMark()
+	}
+
+	if len(keys) == 0 && len(svcs) == 0 && len(uris) == 0 && note == "" {
+		keys = workload.KeyIDs()[:1] // (an empty document is not a valid input)
 	}
 
 	w.k.Count("probe:opaque-document-request")
@@ -1027,8 +1031,15 @@ func (w *bWorld) submit(op *bOp) {
 	_ = uBefore
 
 	// now and then the request is exactly as large as the protocol allows (sent with trailing whitespace)
-	if max := int(w.proto.CurrentVersion().P.MaxOperationSize); op.Byz == "" && !op.Dup && len(op.Req) < max && k.Draw(15, "submit.maxsize") == 0 {
-		op.Req = append(append([]byte(nil), op.Req...), []byte(strings.Repeat(" ", max-len(op.Req)))...)
+	if max := int(w.proto.CurrentVersion().P.MaxOperationSize); op.Byz == "" && !op.Dup && len(op.Req)+1 < max && k.Draw(15, "submit.maxsize") == 0 {
+		pad := max - len(op.Req)
+		lead := []string{"", "\n", " \r\n\t"}[k.Draw(3, "submit.maxsize.lead")]
+
+		if len(lead) > pad {
+			lead = ""
+		}
+
+		op.Req = append(append([]byte(lead), op.Req...), []byte(strings.Repeat(" ", pad-len(lead)-1)+"\n")...)
 		k.Count("probe:request-of-exactly-maximum-size")
 	}
 
